@@ -1289,6 +1289,117 @@ impl<'a> LL1Validator {
                 Self::check_regex(cst, sema, diags, regex, rule, sema.recursive.get(&rule));
             }
         }
+        // left recursion usually results in an LL(1) conflict, except if the conflict
+        // is resolved by an ordered choice or a semantic predicate
+        if !diags.iter().any(|d| d.severity == Severity::Error) {
+            for rule in file.rule_decls(cst) {
+                Self::check_left_recursion(cst, sema, diags, rule);
+            }
+        }
+    }
+
+    /// Collects the rules that can be called by the regex before a token is consumed.
+    fn left_corner_rules(
+        cst: &Cst<'_>,
+        sema: &SemanticData<'a>,
+        regex: Regex,
+        rules: &mut Vec<RuleDecl>,
+    ) {
+        match regex {
+            Regex::Name(name) => {
+                let decl = sema.decl_bindings.get(&name.syntax());
+                if let Some(rule) = decl.and_then(|decl| RuleDecl::cast(cst, *decl)) {
+                    rules.push(rule);
+                }
+            }
+            Regex::Concat(concat) => {
+                for op in concat.operands(cst) {
+                    Self::left_corner_rules(cst, sema, op, rules);
+                    let nullable = sema
+                        .first_sets
+                        .get(&op.syntax())
+                        .is_some_and(|first| first.contains(&TokenName::EPSILON));
+                    if !nullable {
+                        break;
+                    }
+                }
+            }
+            Regex::Alternation(alt) => alt
+                .operands(cst)
+                .for_each(|op| Self::left_corner_rules(cst, sema, op, rules)),
+            Regex::OrderedChoice(choice) => choice
+                .operands(cst)
+                .for_each(|op| Self::left_corner_rules(cst, sema, op, rules)),
+            Regex::Paren(paren) => {
+                if let Some(op) = paren.inner(cst) {
+                    Self::left_corner_rules(cst, sema, op, rules);
+                }
+            }
+            Regex::Optional(opt) => {
+                if let Some(op) = opt.operand(cst) {
+                    Self::left_corner_rules(cst, sema, op, rules);
+                }
+            }
+            Regex::Star(star) => {
+                if let Some(op) = star.operand(cst) {
+                    Self::left_corner_rules(cst, sema, op, rules);
+                }
+            }
+            Regex::Plus(plus) => {
+                if let Some(op) = plus.operand(cst) {
+                    Self::left_corner_rules(cst, sema, op, rules);
+                }
+            }
+            _ => {}
+        }
+    }
+
+    /// Collects the rules that can be called by a rule before a token is consumed.
+    /// The self reference of a left recursive branch is handled by the Pratt parser.
+    fn rule_left_corner_rules(
+        cst: &Cst<'_>,
+        sema: &SemanticData<'a>,
+        rule: RuleDecl,
+        rules: &mut Vec<RuleDecl>,
+    ) {
+        match (rule.regex(cst), sema.recursive.get(&rule)) {
+            (Some(Regex::Alternation(alt)), Some(recursive)) => {
+                for op in alt.operands(cst) {
+                    if matches!(
+                        recursive.get_branch(op),
+                        Some(Recursion::Left(..) | Recursion::LeftRight(..))
+                    ) {
+                        continue;
+                    }
+                    Self::left_corner_rules(cst, sema, op, rules);
+                }
+            }
+            (Some(regex), _) => Self::left_corner_rules(cst, sema, regex, rules),
+            _ => {}
+        }
+    }
+
+    /// Checks that a rule cannot call itself again before a token is consumed.
+    /// Usually this results in an LL(1) conflict, except if the conflict is
+    /// resolved by an ordered choice or a semantic predicate.
+    fn check_left_recursion(
+        cst: &Cst<'_>,
+        sema: &SemanticData<'a>,
+        diags: &mut Vec<Diagnostic>,
+        rule: RuleDecl,
+    ) {
+        let mut worklist = vec![];
+        let mut visited = FxHashSet::default();
+        Self::rule_left_corner_rules(cst, sema, rule, &mut worklist);
+        while let Some(called) = worklist.pop() {
+            if called == rule {
+                diags.push(Diagnostic::consume_tokens(&rule.span(cst)));
+                return;
+            }
+            if visited.insert(called) {
+                Self::rule_left_corner_rules(cst, sema, called, &mut worklist);
+            }
+        }
     }
 
     fn has_predicate(cst: &Cst<'_>, regex: Regex) -> bool {
